@@ -58,6 +58,11 @@ def protocols(mpc, l, k):
     P['convert_int'] = (T, allv, lambda a: mpc.convert(a, T2), lambda x: None)
     Tf = mpc.SecFxp(2 * l, l)
     fv = [i / (1 << l) for i in range(-(1 << (2 * l - 1)), 1 << (2 * l - 1))]
+    # a fixed-point product carries l + f bits: its truncation mask must be widened by f as well (f = 3 here, so a mask that
+    # forgets the f bits is 3 bits short)
+    # (f = 4: a mask that forgets the f bits is 4 bits short, which is beyond the 4 * 2^-k tolerance at k = 4)
+    Tf3 = mpc.SecFxp(8, 4)
+    P['fxp_mul_f3'] = (Tf3, [0.0, 2.75, -1.5], lambda a: a * a, lambda x: None)
     if l <= 2:
         P['trunc'] = (Tf, fv, lambda a: mpc.trunc(a, f=1), lambda x: None)
         P['fxp_mul'] = (Tf, [v for v in fv if abs(v) < 1], lambda a: a * a, lambda x: None)
@@ -111,14 +116,83 @@ def jobs(tier, seed):
             if n == 'mod3' and (tier == 'quick' or l > 2):
                 continue
             out.append(dict(l=l, k=k, name=n, tier=tier, seed=seed))
+    out.append(dict(l=2, k=4, name='fxp_mul_f3', tier=tier, seed=seed))
+    if tier == 'thorough':
+        out.append(dict(l=2, k=5, name='fxp_mul_f3', tier=tier, seed=seed))
     # the probabilistic zero test opens k blinded field elements: enumerable only at k = 1 (|F|^2 outcomes per round)
     out.append(dict(l=2, k=1, name='_is_zero', tier=tier, seed=seed))
+    # multi-party premise of all of the above: every PRSS evaluation uses a fresh common input
+    for (m, t) in ((3, 1), (4, 1)) if tier == 'quick' else ((2, 0), (3, 1), (4, 1), (5, 2)):
+        out.append(dict(engine='prss_uci', m=m, t=t, tier=tier, seed=seed))
     if tier == 'thorough':
         out.append(dict(l=3, k=1, name='_is_zero', tier=tier, seed=seed))
     return out
 
 
+UCI_PROGRAMS = ('randoms', 'zero_tests', 'convert', 'mul_cmp', 'fxp', 'small_field', 'linalg')
+
+
+def run_prss_uci(job):
+    """Masks, random bits and zero sharings generated by PRSS are independent only if every PRSS evaluation has its own common
+    input (Runtime._prss_uci: "unique common input for PRSS").  All PRSS calls of every party are logged on real multi-party
+    runs of the corpus programs; the one sanctioned reuse is _convert's pair of calls for the SAME random numbers in two fields."""
+    from mc.world import World
+    from mc.explorer import run_execution
+    from mc.programs import PROGRAMS
+    from mc.sched import make_setup
+    part = Part()
+    m, t = job['m'], job['t']
+    world = World(m, t, False, seed=job['seed'])
+    logs = [[] for _ in range(m)]
+    names = ('pseudorandom_share', 'pseudorandom_share_zero', 'np_pseudorandom_share', 'np_pseudorandom_share_0')
+    for i, u in enumerate(world.universes):
+        for fn in names:
+            orig = getattr(u.thresha, fn, None)
+            if orig is None or getattr(orig, '_verif_uci', False):
+                continue
+
+            def wrapped(field, m_, i_, prfs, uci, n, *a, _orig=orig, _fn=fn, _log=logs[i], **kw):
+                bound = None
+                try:
+                    bound = next(iter(prfs.values())).max if hasattr(next(iter(prfs.values())), 'max') else None
+                except Exception:
+                    pass
+                _log.append((_fn, getattr(field, '__name__', str(field)), bytes(uci), n if isinstance(n, int) else tuple(n) if n is not None else None))
+                return _orig(field, m_, i_, prfs, uci, n, *a, **kw)
+            wrapped._verif_uci = True
+            setattr(u.thresha, fn, wrapped)
+    for name in UCI_PROGRAMS:
+        prog = PROGRAMS[name]
+        if m not in prog['ms'] and not (m == 4 and 3 in prog['ms']):
+            continue
+        ctxs = []
+        for lg in logs:
+            del lg[:]
+        x = run_execution(world, make_setup(prog, ctxs), (), 'eager', 'none', sched_alts=False)
+        part.transitions += x.nsteps
+        cfg = f'{name}/m{m}t{t}'
+        for p in range(m):
+            seen = {}
+            for idx, (fn, fld, uci, n) in enumerate(logs[p]):
+                part.case(key=None, nontrivial=True)
+                if uci in seen:
+                    pfn, pfld, pn, pidx = seen[uci]
+                    sanctioned = fn == pfn == 'pseudorandom_share' and pn == n and pidx == idx - 1   # _convert: the same numbers in source and target field
+                    if not sanctioned:
+                        part.violation('C18:prss:common-input-reused',
+                                       f'[{cfg}] party {p}: {fn}({fld}, n={n}) uses the same PRSS common input as the earlier '
+                                       f'{pfn}({pfld}, n={pn}): the two pseudorandom sharings are not independent',
+                                       dict(engine='prss_uci', m=m, t=t, tier=job['tier'], seed=job['seed']))
+                seen[uci] = (fn, fld, n, idx)
+            part.outcomes.add(stable_hash((name, p, len(logs[p]))) & 0xffffff)
+        if x.status != 'done':
+            part.caps.append(f'{cfg}: run ended {x.status}')
+    return part
+
+
 def run_job(job):
+    if job.get('engine') == 'prss_uci':
+        return run_prss_uci(job)
     from mc import sp
     part = Part()
     l, k, name = job['l'], job['k'], job['name']
